@@ -33,3 +33,157 @@ theorem compileWith_channels (dropZero : Bool)
     rfl
 
 end QipVerif.Concat
+
+namespace QipVerif.Concat
+
+/-! ### `Instruction.__init__` and the recorded durations -/
+
+theorem cumStartsD_eq (ids : List (Instr × Rat)) (h : ∀ id ∈ ids, id.2 = id.1.duration) :
+    ∀ acc, cumStartsD acc ids = cumStarts acc (ids.map (·.1)) := by
+  induction ids with
+  | nil => intro acc; rfl
+  | cons id rest ih =>
+    intro acc
+    obtain ⟨i, d⟩ := id
+    have hd : d = i.duration := h (i, d) (by simp)
+    simp only [cumStartsD, List.map_cons, cumStarts, hd]
+    rw [ih (fun id hid => h id (by simp [hid]))]
+
+theorem scheduleD_eq (ids : List (Instr × Rat)) (h : ∀ id ∈ ids, id.2 = id.1.duration)
+    (sch : Option (List Rat × List Nat)) : scheduleD ids sch = schedule (ids.map (·.1)) sch := by
+  cases sch with
+  | none => simp only [scheduleD, schedule, cumStartsD_eq ids h]
+  | some sp => rfl
+
+theorem filter_durations (ids : List (Instr × Rat)) (h : ∀ id ∈ ids, id.2 = id.1.duration) :
+    (ids.filter (fun id => id.2 != 0)).map (·.1) = (ids.map (·.1)).filter (fun i => i.duration != 0) := by
+  induction ids with
+  | nil => rfl
+  | cons id rest ih =>
+    obtain ⟨i, d⟩ := id
+    have hd : d = i.duration := h (i, d) (by simp)
+    have ih' := ih (fun id hid => h id (by simp [hid]))
+    simp only [List.filter_cons, List.map_cons, hd]
+    by_cases hz : (i.duration != 0) = true
+    · simp only [hz, if_true, List.map_cons, ih']
+    · simp only [hz, Bool.false_eq_true, if_false, ih']
+
+/-- **with the recorded duration equal to `Instruction.duration` of the model, `compile` on constructed instructions is
+`compileWith` on the instructions as stored** -/
+theorem compileD_eq (dropZero : Bool)
+    (cat : List (List (Rat × Wave)) → Except Err (List (Option (List Rat × List Rat))))
+    (ids : List (Instr × Rat)) (h : ∀ id ∈ ids, id.2 = id.1.duration) (sch : Option (List Rat × List Nat)) :
+    compileD dropZero cat ids sch = compileWith dropZero cat (ids.map (·.1)) sch := by
+  unfold compileD compileWith
+  cases dropZero with
+  | false =>
+    simp only [Bool.false_eq_true, if_false, scheduleD_eq ids h, List.isEmpty_map]
+  | true =>
+    have hf : ∀ id ∈ ids.filter (fun id => id.2 != 0), id.2 = id.1.duration :=
+      fun id hid => h id (List.mem_filter.mp hid).1
+    simp only [if_true, scheduleD_eq _ hf, filter_durations ids h]
+    rw [← filter_durations ids h, List.isEmpty_map]
+
+theorem init_duration (s : InstrSrc) (hs : s.Standard) (i i' : Instr) (d : Rat) (h : s.init i = some (i', d)) :
+    d = i'.duration := by
+  obtain ⟨_, h1, h0⟩ := hs
+  unfold InstrSrc.init at h
+  cases htl : i.tl with
+  | scalar t =>
+    rw [htl] at h
+    simp only [Option.some.injEq, Prod.mk.injEq] at h
+    obtain ⟨rfl, rfl⟩ := h
+    simp [Instr.duration, htl]
+  | arr tl =>
+    rw [htl] at h
+    simp only at h
+    split at h
+    · cases h
+    · simp only [Option.some.injEq, Prod.mk.injEq] at h
+      obtain ⟨rfl, rfl⟩ := h
+      simp only [Instr.duration, h1, h0]
+      grind
+
+theorem initAll_durations (s : InstrSrc) (hs : s.Standard) (instrs : List Instr) :
+    ∀ ids, initAll s instrs = some ids → ∀ id ∈ ids, id.2 = id.1.duration := by
+  induction instrs with
+  | nil => intro ids h id hid; simp [initAll] at h; subst h; simp at hid
+  | cons i rest ih =>
+    intro ids h id hid
+    simp only [initAll] at h
+    cases hi : s.init i with
+    | none => rw [hi] at h; simp at h
+    | some a =>
+      cases hr : initAll s rest with
+      | none => rw [hi, hr] at h; simp at h
+      | some as =>
+        rw [hi, hr] at h
+        simp only [Option.some.injEq] at h
+        subst h
+        rcases List.mem_cons.mp hid with rfl | hid
+        · exact init_duration s hs i id.1 id.2 hi
+        · exact ih as hr id hid
+
+/-- **fixes/C12-6.patch: the stored time sequence of a sampled instruction starts at exactly 0** (and is still strictly
+increasing, with the same pulses): the hypothesis `tl.head? = some 0` of `WaveOK` then holds for every accepted instruction. -/
+theorem init_shift_head (s : InstrSrc) (hs : s.shift = true) (i i' : Instr) (d : Rat) (tl : List Rat)
+    (htl : i.tl = .arr tl) (hne : tl ≠ []) (h : s.init i = some (i', d)) :
+    ∃ tl', i'.tl = .arr tl' ∧ tl'.head? = some 0 ∧ tl'.length = tl.length ∧
+      (tl.Pairwise (· < ·) → tl'.Pairwise (· < ·)) ∧ i'.pulses = i.pulses := by
+  unfold InstrSrc.init at h
+  rw [htl] at h
+  simp only at h
+  split at h
+  · cases h
+  · simp only [Option.some.injEq, Prod.mk.injEq] at h
+    obtain ⟨rfl, _⟩ := h
+    obtain ⟨a, r, rfl⟩ : ∃ a r, tl = a :: r := by
+      cases tl with
+      | nil => exact absurd rfl hne
+      | cons a r => exact ⟨a, r, rfl⟩
+    simp only [List.head?_cons, Option.getD_some, hs, Bool.true_and]
+    by_cases h0 : a = 0
+    · subst h0
+      refine ⟨0 :: r, by simp, rfl, rfl, id, ?_⟩
+      simp
+    · have hb : (a != 0) = true := by simp [h0]
+      refine ⟨(a :: r).map (· - a), by simp [hb], ?_, by simp, ?_, by simp⟩
+      · simp only [List.map_cons, List.head?_cons]; congr 1; grind
+      · intro hp
+        rw [List.pairwise_map]
+        exact List.Pairwise.imp (fun {x y} hxy => by grind) hp
+
+/-- **The convention for a first entry that is not 0** (code without the shift): `_process_gate_pulse` never reads
+`tlist[0]` except for the step size — the points, coefficients and kind of the pulse are those of the sequence with its
+first entry replaced by 0, the step size is `tlist[1] - tlist[0]`. -/
+theorem procPulse_head_ignored (a b : Rat) (rest cs : List Rat) (p : Proc)
+    (h : procPulse (.arr (0 :: b :: rest) cs) = .ok p) :
+    procPulse (.arr (a :: b :: rest) cs) = .ok { p with step := b - a } := by
+  simp only [procPulse, List.length_cons] at h ⊢
+  split at h
+  · rename_i h1; cases h; rw [if_pos h1]
+  · rename_i h1
+    split at h
+    · rename_i h2; cases h; rw [if_neg h1, if_pos h2]
+    · cases h
+
+end QipVerif.Concat
+
+namespace QipVerif.Concat
+
+theorem map_fst_withDuration (l : List Instr) : (l.map fun i => (i, i.duration)).map (·.1) = l := by
+  induction l with
+  | nil => rfl
+  | cons a l ih => simp only [List.map_cons, ih]
+
+/-- instructions with a scalar `tlist` (one rectangular pulse) are stored as they are, with `duration = tlist` -/
+theorem initAll_scalar (s : InstrSrc) (instrs : List Instr) (h : ∀ i ∈ instrs, ∃ t, i.tl = .scalar t) :
+    initAll s instrs = some (instrs.map fun i => (i, i.duration)) := by
+  induction instrs with
+  | nil => rfl
+  | cons i rest ih =>
+    obtain ⟨t, ht⟩ := h i (by simp)
+    have hi : s.init i = some (i, i.duration) := by simp [InstrSrc.init, Instr.duration, ht]
+    simp only [initAll, hi, ih (fun j hj => h j (by simp [hj])), List.map_cons]
+
+end QipVerif.Concat
